@@ -475,6 +475,135 @@ func c20Interpolate[E algebra.PrimeGroupElement[E, S], S algebra.PrimeFieldEleme
 	}
 }
 
+// c20DetSymbolic: determinant of an n×n matrix whose first n−1 columns are the concrete entries of
+// spec (so that every pivot the elimination divides by is concrete) and whose LAST column is
+// symbolic, against the Leibniz formula, on every path. Sparse specs make the elimination swap
+// non-adjacent rows.
+func c20DetSymbolic[E algebra.PrimeGroupElement[E, S], S algebra.PrimeFieldElement[S]](env Env[E, S], spec matSpec) {
+	f := env.Field()
+	n := spec.N
+	rows := buildSpec[S](spec, env)
+	for i := range rows {
+		rows[i][n-1] = env.Scalar(fmt.Sprintf("s%d", i))
+	}
+	alg, err := mat.NewMatrixAlgebra(uint(n), f)
+	if !env.Check("C20.b/detsym: setup", err == nil, fmt.Sprint(err)) {
+		return
+	}
+	A, err := alg.New(rows)
+	if !env.Check("C20.b/detsym: setup", err == nil, fmt.Sprint(err)) {
+		return
+	}
+	// Leibniz: Σ_σ sgn(σ) Π a[i][σ(i)]
+	want := f.Zero()
+	perm := make([]int, n)
+	for i := range perm {
+		perm[i] = i
+	}
+	var rec func(k int, sign int)
+	rec = func(k int, sign int) {
+		if k == n {
+			term := f.One()
+			for i := 0; i < n; i++ {
+				term = term.Mul(rows[i][perm[i]])
+			}
+			if sign < 0 {
+				term = term.Neg()
+			}
+			want = want.Add(term)
+			return
+		}
+		for i := k; i < n; i++ {
+			perm[k], perm[i] = perm[i], perm[k]
+			sg := sign
+			if i != k {
+				sg = -sign
+			}
+			rec(k+1, sg)
+			perm[k], perm[i] = perm[i], perm[k]
+		}
+	}
+	rec(0, 1)
+	det := A.Determinant()
+	env.Valid("C20.b/determinant with a symbolic last column = Leibniz formula (every path)", env.EqF(det, want))
+	env.Reach("detsym-done")
+}
+
+// sparseSquares: n×n matrices with many zeros (first non-zero of a column often two or more rows
+// below the diagonal).
+func sparseSquares(tier string, seed int64) []matSpec {
+	rng := rand.New(rand.NewSource(seed + 101))
+	vals := []int64{0, 0, 0, 1, 2, -1, 3}
+	var out []matSpec
+	per := 12
+	if tier == "thorough" {
+		per = 60
+	}
+	for _, n := range []int{3, 4, 5} {
+		// handcrafted: anti-diagonal-like and cyclic-shift supports
+		anti := make([][]int64, n)
+		cyc := make([][]int64, n)
+		for i := 0; i < n; i++ {
+			anti[i] = make([]int64, n)
+			cyc[i] = make([]int64, n)
+			anti[i][n-1-i] = int64(i + 2)
+			cyc[i][(i+n-2)%n] = int64(2*i + 1)
+		}
+		out = append(out, matSpec{M: n, N: n, E: anti, Name: fmt.Sprintf("%dx%d/anti-diagonal", n, n)}, matSpec{M: n, N: n, E: cyc, Name: fmt.Sprintf("%dx%d/cyclic-shift-2", n, n)})
+		for k := 0; k < per; k++ {
+			e := make([][]int64, n)
+			for i := range e {
+				e[i] = make([]int64, n)
+				for j := range e[i] {
+					e[i][j] = vals[rng.Intn(len(vals))]
+				}
+			}
+			// force the first entries of column 0 to zero in half of the cases
+			if k%2 == 0 {
+				e[0][0], e[1][0] = 0, 0
+				e[2][0] = 1 + int64(rng.Intn(3))
+			}
+			out = append(out, matSpec{M: n, N: n, E: e, Name: fmt.Sprintf("%dx%d/sparse/%v", n, n, e)})
+		}
+	}
+	return out
+}
+
+// c20BirkhoffHigh: generalised Vandermonde matrix of high degree and high derivative orders with
+// SYMBOLIC nodes: entry (r,c) = c!/(c−j_r)! · x_r^(c−j_r) (0 for c < j_r), the factorial computed
+// in the field.
+func c20BirkhoffHigh[E algebra.PrimeGroupElement[E, S], S algebra.PrimeFieldElement[S]](env Env[E, S], cols int, orders []uint64) {
+	f := env.Field()
+	xs := make([]S, len(orders))
+	for i := range xs {
+		xs[i] = env.Scalar(fmt.Sprintf("x%d", i))
+	}
+	BM, err := birkhoff.BuildVandermondeMatrix(xs, orders, cols)
+	if !env.Check("C20.c/birkhoff-high: matrix-ok", err == nil, fmt.Sprint(err)) {
+		return
+	}
+	var eqs []symalg.Pred
+	for r := range xs {
+		j := int(orders[r])
+		for c := 0; c < cols; c++ {
+			e, _ := BM.Get(r, c)
+			want := f.Zero()
+			if c >= j {
+				want = f.One()
+				for t := 0; t < j; t++ {
+					want = want.Mul(f.FromUint64(uint64(c - t)))
+				}
+				for t := 0; t < c-j; t++ {
+					want = want.Mul(xs[r])
+				}
+			}
+			eqs = append(eqs, env.EqF(e, want))
+		}
+	}
+	env.Valid("C20.c/Birkhoff matrix entry = c!/(c−j)!·x^(c−j) at high degree and order", symalg.And(eqs...))
+	env.Reach("birkhoff-high-done")
+}
+
 // C20Cases builds the case list.
 func C20Cases(tier string, seed int64) []Case {
 	var cases []Case
@@ -488,6 +617,24 @@ func C20Cases(tier string, seed int64) []Case {
 				func(e Env[*symalg.G, *symalg.F]) { c20Square(e, s) },
 				func(e Env[*k256.Point, *k256.Scalar]) { c20Square(e, s) }))
 		}
+	}
+	// determinants with a symbolic last column on sparse matrices
+	for _, spec := range sparseSquares(tier, seed) {
+		sp := spec
+		c := both("C20/det-symbolic/"+sp.Name, map[string]any{"matrix": sp.E, "last column": "symbolic"},
+			func(e Env[*symalg.G, *symalg.F]) { c20DetSymbolic(e, sp) }, nil)
+		c.MustReach = []string{"detsym-done"}
+		cases = append(cases, c)
+	}
+	for _, hc := range []struct {
+		cols   int
+		orders []uint64
+	}{{25, []uint64{0, 1, 2, 19, 20, 21, 24}}, {30, []uint64{20, 25, 29}}, {66, []uint64{0, 21, 40, 65}}} {
+		h := hc
+		c := both(fmt.Sprintf("C20/birkhoff-high/cols=%d/orders=%v", h.cols, h.orders), map[string]any{"cols": h.cols, "derivative orders": h.orders, "nodes": "symbolic"},
+			func(e Env[*symalg.G, *symalg.F]) { c20BirkhoffHigh(e, h.cols, h.orders) }, nil)
+		c.MustReach = []string{"birkhoff-high-done"}
+		cases = append(cases, c)
 	}
 	for _, ns := range nodeSets {
 		n := ns
